@@ -174,6 +174,16 @@ def _shard_main(args):
             test()
         except Violation:
             pass
+        except BaseException as err:  # pylint: disable=broad-except
+            # Hypothesis reports a failure it cannot reproduce (Flaky...) when
+            # the code under test carries state from one case to the next.
+            # A violation was observed on real code: report it, and say so.
+            if not found or 'lak' not in type(err).__name__:
+                raise
+            found['message'] = (
+                '%s [not reproducible in isolation: the code under test '
+                'carries state across cases (%s)]' % (
+                    found['message'], type(err).__name__))
         out = stats.export()
         out['wall_s'] = time.time() - t0
         out['shard'] = shard
